@@ -5,8 +5,11 @@ import (
 	"os"
 	"os/exec"
 	"path/filepath"
+	"runtime"
 	"strings"
+	"sync"
 	"syscall"
+	"time"
 
 	"github.com/go-git/go-billy/v5"
 	"github.com/go-git/go-billy/v5/osfs"
@@ -183,6 +186,9 @@ func runC05(c *runCtx) {
 	c05Directed(c)
 	c05ForeignPush(c)
 	c05TransientOpen(c)
+	c05Concurrent(c)
+	c05MemStress(c)
+	c05LateJoiner(c)
 	c05Rebuild(c)
 	c05CLI(c)
 	c06Clocks(c, "C05") // every crash point of a clock write: the clock never goes back
@@ -602,5 +608,187 @@ func c05TransientOpen(c *runCtx) {
 			c.violation(-1, "C05/clock-went-back", fmt.Sprintf("after a failed open the clock file no longer holds at least %d (%v)", before, err), nil)
 		}
 		os.RemoveAll(dir)
+	}
+}
+
+// c05Concurrent: several goroutines of one process use one repository's clock at once, as the web UI's
+// request handlers do when they commit different bugs: every increment hands out another value, a
+// witness never takes the clock back, and what the clock file holds once everybody returned is what
+// the clock stood at — the next process must not hand the same times out again.
+func c05Concurrent(c *runCtx) {
+	for rep := 0; rep < c.pick(16, 60); rep++ {
+		r := c.rng.fork()
+		repo, dir := newGoGit("c05conc", false)
+		start := uint64(r.rangeInt(1, 500))
+		repo.Witness("bugs-edit", lamport.Time(start))
+		G, K := r.rangeInt(2, 8), r.rangeInt(20, 120)
+		var wg sync.WaitGroup
+		var mu sync.Mutex
+		seen := map[uint64]int{}
+		backwards := ""
+		gate := make(chan struct{})
+		for g := 0; g < G; g++ {
+			wg.Add(1)
+			go func(g int) {
+				defer wg.Done()
+				<-gate
+				last := uint64(0)
+				for k := 0; k < K; k++ {
+					if g%3 == 2 && k%2 == 1 {
+						// a witness in between (a pull, a read): of something seen long ago, or of a time just
+						// ahead of the clock, which increments by the others overtake while it is being recorded
+						w := lamport.Time(start)
+						if k%4 == 1 {
+							w = lamport.Time(clockTime(repo, "bugs-edit") + 2)
+						}
+						repo.Witness("bugs-edit", w)
+						continue
+					}
+					v, err := repo.Increment("bugs-edit")
+					if err != nil {
+						mu.Lock()
+						backwards = "increment failed: " + err.Error()
+						mu.Unlock()
+						return
+					}
+					mu.Lock()
+					seen[uint64(v)]++
+					if uint64(v) <= last {
+						backwards = fmt.Sprintf("goroutine %d got %d after %d", g, v, last)
+					}
+					mu.Unlock()
+					last = uint64(v)
+				}
+			}(g)
+		}
+		close(gate)
+		wg.Wait()
+		c.count("concurrent-clock-runs")
+		if backwards != "" {
+			c.violation(-1, "C05/clock-went-back", fmt.Sprintf("%d goroutines incrementing one clock: %s", G, backwards), nil)
+		}
+		for v, n := range seen {
+			if n > 1 {
+				c.violation(-1, "C05/time-handed-out-twice", fmt.Sprintf("%d goroutines incrementing one clock: the edit time %d was handed out %d times", G, v, n), nil)
+				break
+			}
+		}
+		mem := clockTime(repo, "bugs-edit")
+		var mx uint64
+		for v := range seen {
+			if v > mx {
+				mx = v
+			}
+		}
+		if mem < mx {
+			c.violation(-1, "C05/clock-went-back", fmt.Sprintf("the clock stands at %d after handing out %d", mem, mx), nil)
+		}
+		repo.Close()
+		// the next process
+		r2, err := openGoGit(dir)
+		if err != nil {
+			c.violation(-1, "C05/cannot-reopen", "after concurrent use of the clock the repository does not open: "+err.Error(), nil)
+			continue
+		}
+		if disk := clockTime(r2, "bugs-edit"); disk < mx {
+			c.violation(-1, "C05/clock-went-back", fmt.Sprintf("%d goroutines used one clock at once: it handed out times up to %d, the clock file holds %d: the next process hands the same times out again", G, mx, disk), nil)
+		}
+		r2.Close()
+		cleanupScratch()
+	}
+}
+
+// c05LateJoiner: a replica that has seen little takes in, in one pull, a bug whose history was merged from
+// branches of unequal length: its clocks — the creation clock too — stand at or above every time stored in
+// what it merged.
+func c05LateJoiner(c *runCtx) {
+	for rep := 0; rep < c.pick(3, 15); rep++ {
+		r := c.rng.fork()
+		s := newReplicaSys(c, r, 3)
+		A, B, C := s.reps[0], s.reps[1], s.reps[2]
+		s.newBug(A) // creation time 1
+		s.newBug(A) // creation time 2: the one that gets the uneven history
+		s.onlyBug = s.bugIds[1]
+		s.push(A)
+		s.pull(C, false)
+		for k := 0; k < r.rangeInt(3, 4); k++ {
+			s.edit(C, 1)
+		}
+		s.edit(A, 1)
+		s.push(A)
+		s.pull(C, false) // C writes the merge commit over branches of 1 and 3..4 commits
+		s.push(C)
+		s.pull(B, false) // B has never seen anything: the oracle of pull compares its clocks with what it merged
+		c.count("late-joiner")
+		s.close()
+		cleanupScratch()
+	}
+}
+
+// c05MemStress: the in-memory clock (under every persisted one) with all cores on it: incrementers in a
+// tight loop, witnesses of times just ahead of the clock in another.  No time is handed out twice and
+// nobody sees the clock go back.
+func c05MemStress(c *runCtx) {
+	old := runtime.GOMAXPROCS(0)
+	defer runtime.GOMAXPROCS(old)
+	for rep := 0; rep < c.pick(6, 40); rep++ {
+		clk := lamport.NewMemClockWithTime(uint64(10 + rep))
+		const G = 8
+		perG := make([][]uint64, G)
+		wentBack := make([]string, G)
+		var wg sync.WaitGroup
+		stop := make(chan struct{})
+		for g := 0; g < G; g++ {
+			wg.Add(1)
+			go func(g int) {
+				defer wg.Done()
+				last := uint64(0)
+				for {
+					select {
+					case <-stop:
+						return
+					default:
+					}
+					if g%2 == 0 {
+						v, _ := clk.Increment()
+						perG[g] = append(perG[g], uint64(v))
+					} else {
+						clk.Witness(clk.Time() + lamport.Time(1+g%3))
+					}
+					if t := uint64(clk.Time()); t < last {
+						wentBack[g] = fmt.Sprintf("goroutine %d read the clock at %d after having read %d", g, t, last)
+					} else {
+						last = t
+					}
+					if len(perG[g]) > 200000 {
+						return
+					}
+				}
+			}(g)
+		}
+		time.Sleep(60 * time.Millisecond)
+		close(stop)
+		wg.Wait()
+		seen := map[uint64]bool{}
+		dup := uint64(0)
+		for _, l := range perG {
+			for _, v := range l {
+				if seen[v] {
+					dup = v
+				}
+				seen[v] = true
+			}
+		}
+		c.count("mem-clock-stress-runs")
+		if dup != 0 {
+			c.violation(-1, "C05/time-handed-out-twice", fmt.Sprintf("in-memory clock under %d goroutines (increments against witnesses of times just ahead): the time %d was handed out twice", G, dup), nil)
+			return
+		}
+		for _, w := range wentBack {
+			if w != "" {
+				c.violation(-1, "C05/clock-went-back", "in-memory clock under concurrent increments and witnesses: "+w, nil)
+				return
+			}
+		}
 	}
 }
